@@ -48,7 +48,17 @@ class C06(Property):
                 t = rng.randint(0, 5000)
                 ls.append(f"10,10,{t},2,0,B|20:20|30:30|L|40:40|50:50{rng.choice(BAD_PATH_TAILS)},1,50")
                 ls.append(f"60,60,{t + 100},2,0,L|70:70,1,20")
-            cases.append(Case("c06 " + " ".join(hexs(l.encode()) for l in ls), corr=False, tags=("file",)))
+            bl = [l.encode() for l in ls]
+            tag = "file"
+            if rng.random() < 0.2:
+                # bytes that are not valid UTF-8 (a legacy ANSI file) in several lines: the reader's replacement buffer is
+                # state that a rejected line must not leave behind for a later line
+                tag = "file-invalid-utf8"
+                for i in range(len(bl)):
+                    if bl[i] and not bl[i].startswith(b"[") and rng.random() < 0.35:
+                        k = rng.randrange(len(bl[i]) + 1)
+                        bl[i] = bl[i][:k] + rng.choice([b"\xe9", b"\xff", b"\xe2\x82", b"caf\xe9.wav"]) + bl[i][k:]
+            cases.append(Case("c06 " + " ".join(hexs(l) for l in bl), corr=False, tags=(tag,)))
         for f in bundled_files()[: (3 if tier == "quick" else 100)]:
             ls = open(f, "rb").read().decode("utf-8", "replace").replace("\r", "").split("\n")
             for _ in range(2 if tier == "quick" else 10):
